@@ -721,6 +721,7 @@ pub fn parent<P: Prop>(tier: Tier, seed: u64) -> i32 {
                             if known.is_open(P::ID, &sig) {
                                 *ev.known_hits.entry(sig).or_insert(0) += 1;
                             } else {
+                                let case = minimize_crash::<P>(case, &tmp);
                                 let p = write_replay(P::ID, &sig, &msg, &case);
                                 violations.push((sig, msg, p.display().to_string()));
                             }
@@ -841,6 +842,40 @@ pub fn parent<P: Prop>(tier: Tier, seed: u64) -> i32 {
     } else {
         0
     }
+}
+
+/// Shrinks a case that kills the worker process, using the property's reduce
+/// candidates and child-process replays ("still dies" is the criterion)
+fn minimize_crash<P: Prop>(case: Value, tmp: &Path) -> Value {
+    let Ok(mut cur) = serde_json::from_value::<P::Case>(case.clone()) else {
+        return case;
+    };
+    let file = tmp.join("crash-candidate.json");
+    let mut budget = 80;
+    'outer: while budget > 0 {
+        for cand in P::reduce(&cur) {
+            if budget == 0 {
+                break 'outer;
+            }
+            budget -= 1;
+            let rf = ReplayFile {
+                property: P::ID.to_string(),
+                kind: "violation".into(),
+                sig: "crash".into(),
+                msg: String::new(),
+                case: serde_json::to_value(&cand).unwrap(),
+            };
+            if std::fs::write(&file, serde_json::to_string(&rf).unwrap()).is_err() {
+                break 'outer;
+            }
+            if let ReplayOutcome::Crash(_) = replay_in_child(&file, false) {
+                cur = cand;
+                continue 'outer;
+            }
+        }
+        break;
+    }
+    serde_json::to_value(&cur).unwrap_or(case)
 }
 
 struct Running {
